@@ -1440,6 +1440,29 @@ def check_c07(res, ctx):
         if not re.match(r"rd=0@(\d+):.* sk=0@\1 live=0$", h):
             return "on a stream that cannot seek, sbdf_obj_skip does not end where sbdf_obj_read ends: " + h[:200]
         return None
+    # ... and through real pipes (a forked writer): the sample files and some generated ones
+    import glob
+    rp = core.build_harness("rpipe", main="realpipe.c")
+    rdir = os.path.join(core.CACHE, "rpipe-files")
+    os.makedirs(rdir, exist_ok=True)
+    rfiles = sorted(glob.glob(os.path.join(core.REPO, "tests", "samples", "*.sbdf")))
+    for i, l in enumerate(r.sample(fl, min(len(fl), 40 if ctx.tier == "quick" else 400))):
+        fn = os.path.join(rdir, "g%03d.sbdf" % i)
+        open(fn, "wb").write(bytes.fromhex(l.split()[1]))
+        rfiles.append(fn)
+    rr = subprocess.run([rp] + rfiles, stdout=subprocess.PIPE, stderr=subprocess.PIPE, text=True, env=core.ENV, timeout=3600)
+    rlines = [x for x in rr.stdout.splitlines() if x.startswith(("SAME", "DIFF"))]
+    res.cov["real_pipe_files"] = len(rlines)
+    res.add_cases(["realpipe " + os.path.basename(x.split()[-1]) for x in rlines],
+                  rule="files (the Spotfire samples and generated ones) fed through a real pipe by a forked writer: sbdf_ts_skip loop and first-column subset reads vs the same skips on the regular file", sample=1)
+    for x in rlines:
+        if x.startswith("DIFF"):
+            ctx.found_input = True
+            res.violation("c07 real pipe: skipping behaves differently on a pipe than on the regular file: " + x[:300], [x], True)
+            break
+    if rr.returncode not in (0, 1) or len(rlines) != len(rfiles):
+        ctx.found_input = True
+        res.violation("c07 real pipe: the reader crashed or stopped (rc=%d): %s" % (rr.returncode, clean(rr.stderr)[-400:]), rfiles[len(rlines):len(rlines) + 1], True)
     compare(res, ctx, pl, "c07 streams that cannot seek", oracle=oracle_pipe,
             rule="subset reads, sbdf_ts_skip loops and sbdf_obj_skip of well-formed streams served through a FILE* whose fseek fails with ESPIPE (buffered and unbuffered, reads of at most 4096 bytes)",
             nontrivial=lambda l: True)
